@@ -1,8 +1,8 @@
 INIT GenInit
 NEXT GenNext
 CONSTANTS
-  KL = 16
-  KS = 8
+  KL = 9
+  KS = 6
   MaxLen = 3
 INVARIANTS Emit
 CHECK_DEADLOCK FALSE
